@@ -82,31 +82,45 @@ def stepsA {D : Type} (fl : Flags) (h : Hooks D) (a : StA D) : Nat → StA D
   | 0 => a
   | k + 1 => stepsA fl h (stepA fl h a) k
 
+/-- the record of a new submission (job dependencies point to the jobs that stand for their targets) -/
+def newJob (s : St) (ident : Nat) (deps : List Origin) (code : Nat) (marker : Bool) : Job :=
+  { ident := ident,
+    deps := deps.map (fun o => match o with
+      | .job d => { origin := .job (s.eff d) : Dep }
+      | o => { origin := o }),
+    code := code, marker := marker }
+
+/-- `task.submit()`, part 1: the record exists, the registration coroutine is queued -/
+def submitPre {D : Type} (a : StA D) (rec : Job) : StA D :=
+  { a with s := { a.s with n := a.s.n + 1, jobs := upd a.s.jobs a.s.n rec, regResult := none,
+                           ready := a.s.ready ++ [.register a.s.n] } }
+
+/-- `task.submit()`, part 2 (the registration has run): either another job stands for this submission, or
+    `aio_submit` is scheduled -/
+def submitPost {D : Type} (a : StA D) (j : Nat) : StA D :=
+  match a.s.regResult with
+  | some (some o) => { a with s := { a.s with eff := upd a.s.eff j o } }
+  | _ => { a with s := ({ a.s with eff := upd a.s.eff j j }).put j { (a.s.jobs j) with pc := .created } [.start j] }
+
+def setCode (s : St) (j : Nat) : Option Nat → St
+  | some c => s.put j { (s.jobs j) with code := c }
+  | none => s
+
+/-- a helper thread `(kind, j)` (the `k`-th pending one) has completed -/
+def deliverA {D : Type} (a : StA D) (k j : Nat) (c : Option Nat) (d' : D) : StA D :=
+  let s := setCode a.s j c
+  { a with d := d', s := { s with threads := s.threads.eraseIdx k, ready := s.ready ++ [.resume j] } }
+
 def applyA {D : Type} (fl : Flags) (h : Hooks D) (a : StA D) : Ev → StA D
   | .submit ident deps code marker =>
-    let s := a.s
-    let j := s.n
-    let deps := deps.map (fun o => match o with
-      | .job d => { origin := .job (s.eff d) : Dep }
-      | o => { origin := o })
-    let s := { s with n := s.n + 1, jobs := upd s.jobs j { ident := ident, deps := deps, code := code, marker := marker },
-                      regResult := none }
-    let k := s.ready.length
-    let a := stepsA fl h { a with s := { s with ready := s.ready ++ [.register j] } } (k + 1)
-    (match a.s.regResult with
-     | some (some o) => { a with s := { a.s with eff := upd a.s.eff j o } }
-     | _ => { a with s := ({ a.s with eff := upd a.s.eff j j }).put j { (a.s.jobs j) with pc := .created } [.start j] })
+    submitPost (stepsA fl h (submitPre a (newJob a.s ident deps code marker)) (a.s.ready.length + 1)) a.s.n
   | .step => stepA fl h a
   | .deliver k =>
     (match a.s.threads[k]? with
      | some (kind, j) =>
        (match h.gate a.d kind j (a.s.jobs j) (a.adopted j) with
         | none => a
-        | some (c, d') =>
-          let s := match c with
-            | some c => a.s.put j { (a.s.jobs j) with code := c }
-            | none => a.s
-          { a with d := d', s := { s with threads := s.threads.eraseIdx k, ready := s.ready ++ [.resume j] } })
+        | some (c, d') => deliverA a k j c d')
      | none => a)
   | .wait => { a with s := { a.s with ready := a.s.ready ++ [.waiterRun], waiter := .starting } }
 
